@@ -224,6 +224,12 @@ func (u *Universe) MkSigned(label, op string, reveal *ref.Key, nextR, nextU stri
 		d.Parses = signed == reveal
 	}
 	d.Authorised = d.Parses && signing == signed && !o.Tamper && o.Alter == nil && !o.OmitDelta
+	if op == "recover" && o.OmitDelta {
+		// a recover takes its next commitments from the signed data: without a (usable) delta it still takes effect - empty
+		// document, no update commitment - like any recover whose delta itself is bad
+		d.Authorised = d.Parses && signing == signed && !o.Tamper && o.Alter == nil
+		d.DeltaStatus = ref.DeltaInvalid
+	}
 	if op == "recover" && nextR == reveal.Commitment(u.Code) {
 		d.Parses, d.Authorised = false, false // key re-use is refused by the parser in every mode
 	}
@@ -278,6 +284,8 @@ func (u *Universe) BuildAlphabet(winFrom, winUntil int64) {
 	add(u.MkSigned("rTI", "recover", u.R[0], cm(u.R[2]), cm(u.U[2]), nil, SignedOpts{Tamper: true, DeltaStatus: ref.DeltaInvalid}))
 	add(u.MkSigned("uSF", "update", u.U[0], "", cm(u.U[1]), nil, SignedOpts{SigningKey: u.X[0], DeltaStatus: ref.DeltaFails}))
 	add(u.MkSigned("dO", "deactivate", u.R[0], "", "", nil, SignedOpts{SignedSuffix: "EiOtherSuffixxxxxxxxxxxxxxxxxxxxxxxxxxxxxxxxxxx"}))
+	// a recover without delta
+	add(u.MkSigned("rND", "recover", u.R[0], cm(u.R[1]), cm(u.U[1]), d1, SignedOpts{OmitDelta: true}))
 	// recover / deactivate that declare anchorFrom only (window ends at anchorFrom + MaxOperationTimeDelta)
 	add(u.MkSigned("rWd", "recover", u.R[0], cm(u.R[1]), cm(u.U[1]), d1, SignedOpts{From: winFrom}))
 	add(u.MkSigned("dWd", "deactivate", u.R[0], "", "", nil, SignedOpts{From: winFrom}))
@@ -672,6 +680,11 @@ func (c *Chain) Forgeries(tag string) []*ref.Op {
 	add(c.U.MkSigned(lb("h-upd-wrongsigner-no-delta"), "update", c.CurU, "", y.Commitment(code), k2, SignedOpts{SigningKey: x, OmitDelta: true}))
 	add(c.U.MkSigned(lb("h-rec-wrongsigner-no-delta"), "recover", c.CurR, y.Commitment(code), x.Commitment(code), k2, SignedOpts{SigningKey: x, OmitDelta: true}))
 	add(c.U.MkSigned(lb("h-upd-tampered-no-delta"), "update", c.CurU, "", y.Commitment(code), k2, SignedOpts{Tamper: true, OmitDelta: true}))
+	// (j) signed data that lacks the key member of its operation type altogether (nothing to verify against)
+	add(c.U.MkSigned(lb("j-upd-signed-data-without-key"), "update", c.CurU, "", y.Commitment(code), k2, SignedOpts{Alter: func(p map[string]interface{}) { delete(p, "updateKey") }}))
+	add(c.U.MkSigned(lb("j-rec-signed-data-without-key"), "recover", c.CurR, y.Commitment(code), x.Commitment(code), k2, SignedOpts{Alter: func(p map[string]interface{}) { delete(p, "recoveryKey") }}))
+	add(c.U.MkSigned(lb("j-deact-signed-data-without-key"), "deactivate", c.CurR, "", "", nil, SignedOpts{Alter: func(p map[string]interface{}) { delete(p, "recoveryKey") }}))
+	add(c.U.MkSigned(lb("j-upd-signed-data-with-null-key"), "update", c.CurU, "", y.Commitment(code), k2, SignedOpts{Alter: func(p map[string]interface{}) { p["updateKey"] = nil }}))
 	// update whose delta does not match the signed delta hash (tampered delta)
 	add(c.U.MkSigned(lb("c-upd-delta-swapped"), "update", c.CurU, "", y.Commitment(code), k2, SignedOpts{DeltaStatus: ref.DeltaMismatch}))
 	return out
